@@ -356,7 +356,7 @@ def build(cfg) -> Built:
 
     if quad == "same2":
         # the SAME integrand under two rules of one subdomain (reduced + full rule of one term): both contributions are there
-        form = integrand * meas({"quadrature_degree": 1}) + integrand * meas({"quadrature_degree": 4})
+        form = integrand * meas({"quadrature_degree": 2}) + integrand * meas({"quadrature_degree": 4})
     elif quad == "mix2":
         # two DIFFERENT schemes of the SAME degree in one kernel (e.g. lumped mass + consistent term): each integrand keeps its own rule
         if cell == "prism":
